@@ -407,6 +407,10 @@ class Run:
                                         c.get("sparse", 1), c.get("dense", 0.001), c.get("trunc", -1),
                                         sc.get("fuel", 3000), self.obs_kind))
         self.cmds.append("RESET")
+        meta = sc.get("meta") or {}
+        self.k_classic = bool(meta.get("classic_instance")) and not meta.get("zero_dur") and not meta.get("features")
+        if self.k_classic and err is None:
+            self.cmds.append("KCLASSIC")
         if err is not None:
             self.out.append("X " + err_name(err))
             rec.result = None
@@ -425,6 +429,10 @@ class Run:
         self._emit_micro(micro)
         self.out += res_lines(env.state)
         self.out.append(obs_line(env.current_observation[0], self.obs_kind, env.observation_space))
+        if self.k_classic:
+            # what the generator calls a classic instance must lie in the class of the C06 reachability
+            # theorems (instance guard, start guard, fuel bound): otherwise they would say nothing about it
+            self.out.append("K 1 1 1")
         rec.result, rec.env_state, rec.obs = env.state, env.state, env.current_observation[0]
         rec.terminated = rec.truncated = False
         self.first_reset_canon = canon.state(env.state.state)
@@ -829,7 +837,35 @@ def more_guards(inst, st):
         [t.buffer for t in inst.transports]
     flex = all(b.type == _BT.FLEX_BUFFER for b in all_bufs)
     has_agv = any(t.type == _TT.AGV for t in inst.transports)
-    return tables, ready, out_rest, out_past, flex, has_agv
+    # --- the classes of C05's "no step raises" (JSL/Model/Roomy.lean) and of C06's reachability theorems
+    # (JSL/Model/Classic.lean), re-implemented on the real objects
+    from jobshoplab.types.instance_config_types import DeterministicTimeConfig as _DT
+    nj = len(inst.instance.specification)
+    only_agv = len(inst.transports) > 0 and all(t.type == _TT.AGV for t in inst.transports)
+    jobs_have_ops = all(len(j.operations) > 0 for j in inst.instance.specification)
+    mach_parents = all(b.parent == m.id for m in inst.machines for b in (m.prebuffer, m.buffer, m.postbuffer))
+    std_parents = all(b.parent is None for b in inst.buffers)
+    mach_room = all(m.prebuffer.capacity >= nj and m.postbuffer.capacity >= nj and m.buffer.capacity >= 1 for m in inst.machines)
+    agv_room = all(t.buffer.capacity >= 1 for t in inst.transports)
+    roomy_tot = (not outs or outs[0].capacity >= nj) and mach_room and agv_room
+    sources = [m.id for m in inst.machines] + [b.id for b in inst.buffers if b.role != _BR.OUTPUT]
+    routes = all((a.startswith("b-") and b.startswith("b-")) or (a, b) in tt for a in sources for b in stands)
+    mcfg = {m.id: m for m in inst.machines}
+    tcfg = {t.id: t for t in inst.transports}
+    out_shape = (all(all(any(r.id == oc.id for r in m.outages) for oc in mcfg[m.id].outages) for m in st.machines if m.id in mcfg)
+                 and all(all(any(r.id == oc.id for r in t.outages) for oc in tcfg[t.id].outages) for t in st.transports if t.id in tcfg))
+    total_class = (tables and roomy_tot and std_parents and mach_parents and only_agv and routes and jobs_have_ops and flex
+                   and nj > 0 and ready and out_shape and out_rest)
+    places = [m.id for m in inst.machines] + [b.id for b in inst.buffers]
+    zero_travel = all(isinstance(tt.get((a, b)), _DT) and tt[(a, b)].time == 0 for a in places for b in places)
+    zero_setup = all(isinstance(v, _DT) and v.time == 0 for m in inst.machines for v in m.setup_times.values())
+    no_out = all(len(m.outages) == 0 for m in inst.machines) and all(len(t.outages) == 0 for t in inst.transports)
+    pos_dur = all(isinstance(o.duration, _DT) and o.duration.time > 0 for o in ops)
+    roomy_cl = all(b.capacity >= nj for b in inst.buffers) and mach_room and agv_room
+    parents_cl = mach_parents and std_parents and all(t.buffer.parent == t.id for t in inst.transports)
+    classic = (flex and roomy_cl and has_agv and all(t.type == _TT.AGV for t in inst.transports) and zero_travel and no_out
+               and zero_setup and tables and parents_cl and pos_dur and jobs_have_ops)
+    return tables, ready, out_rest, out_past, flex, has_agv, total_class, classic
 
 
 def conflict_free(offers, rnd, p=0.7):
